@@ -205,8 +205,9 @@ class PointStore(object):
   """The 'point store' stub: a callable preprocessor over a backing array.
   The simulator arms a fault at the k-th call counted from the arming."""
 
-  def __init__(self, X, mixed=False):
+  def __init__(self, X, mixed=False, returns=None):
     self.X = np.asarray(X)
+    self.returns = returns    # None: ndarray; "list" / "tuple": a nested list / tuple of tuples (a legal 2D array-like)
     self.mixed = bool(mixed)  # behaves like a Python table: whole-number rows come back as integers
     self.calls = []          # digests of every index array it was asked for
     self.armed = None        # dict(at=k, exc=name)
@@ -242,14 +243,19 @@ class PointStore(object):
       # np.array([table[i] for i in indices]) over a table whose rows hold
       # Python ints where the numbers are whole: the dtype depends on the rows asked for
       out = out.astype(np.int64)
+    if self.returns == "list":
+      return out.tolist()
+    if self.returns == "tuple":
+      return tuple(tuple(row) for row in out.tolist()) if out.ndim == 2 else tuple(out.tolist())
     return out
 
   def sim_digest(self):
-    return "PointStore:" + digest(self.X) + ("m" if self.mixed else "")
+    return "PointStore:" + digest(self.X) + ("m" if self.mixed else "") + (self.returns or "")
 
   def __getstate__(self):
     return dict(X=self.X, calls=list(self.calls), armed=self.armed,
-                _since_arm=self._since_arm, fired=list(self.fired), mixed=self.mixed)
+                _since_arm=self._since_arm, fired=list(self.fired), mixed=self.mixed,
+                returns=self.returns)
 
   def __setstate__(self, st):
     self.__dict__.update(st)
@@ -783,6 +789,23 @@ class PristineServer(object):
     data = _read_exact(self.r, struct.unpack(">Q", hdr)[0])
     self.calls += 1
     return pickle.loads(data)
+
+
+def fresh_call(modname, funcname, arg, hashseed="2718"):
+  """Run modname.funcname(arg) in a brand-new interpreter with another string-hash salt;
+  same answer format as PristineServer.call."""
+  import os
+  import subprocess
+  import sys
+  env = dict(os.environ)
+  env["PYTHONHASHSEED"] = hashseed
+  verif = os.path.dirname(os.path.dirname(os.path.abspath(__file__)))
+  p = subprocess.run([sys.executable, "-m", "mlsim.freshcall"], cwd=verif, env=env,
+                     input=pickle.dumps((modname, funcname, arg), protocol=4),
+                     capture_output=True, timeout=170)
+  if p.returncode != 0 or not p.stdout:
+    return ("exc", ("FreshInterpreterFailed", (p.stderr or b"")[-300:].decode("utf-8", "replace")))
+  return pickle.loads(p.stdout)
 
 
 _PRISTINE = [None, None]
